@@ -5,9 +5,12 @@
      What the real objects hold is abstracted to VERSION STAMPS: every change of the conditioning data, of the
      model content, of mean/trend/normalizer creates a version number never used before; a kriging result is
      described by the versions (and the position) it was computed from (KDesc).  The transition function
-     follows cond_srf.py / base.py statement by statement; [fx = true] is the tree with the repair commit
-     (Krige drops its stored fields when its setup changes, a re-assigned model rebuilds the kriging matrix),
-     [fx = false] is the pinned behaviour (kept for the refutation and as regression witness).
+     follows cond_srf.py / base.py statement by statement.  Three repair commits are switches of the
+     transition function (record Fix): f_inval (2a36b2f: Krige drops its stored fields when its setup changes, a
+     re-assigned model rebuilds the kriging matrix), f_copy (002fae9: Field.pos stores copies, the caller's array is
+     no longer aliased), f_token (bf42345: CondSRF reuses raw_krige only with the krige_var of the same kriging run,
+     on the positions it was computed for).  [repaired] is the current tree, [pinned] the original behaviour,
+     [first_repair] the tree after 2a36b2f only (kept for the refutations / regression witnesses).
    Part 2 (generic number type): CondSRF.get_scaling and the conditioning formula
      field = rawkrige + var_scale * rawfield + nugget.  *)
 From Coq Require Import List Bool Arith Lia ZArith.
@@ -21,6 +24,11 @@ Import ListNotations.
 Record Pos := mkPos { p_base : nat; p_jit : nat }.
 Definition pos_close (a b : Pos) : bool := p_base a =? p_base b.
 Definition pos0 : Pos := mkPos 0 0.
+
+Record Fix := mkFix { f_inval : bool; f_copy : bool; f_token : bool }.
+Definition repaired : Fix := mkFix true true true.
+Definition first_repair : Fix := mkFix true false false.
+Definition pinned : Fix := mkFix false false false.
 
 (* what a raw kriging field / kriging variance was computed from *)
 Record KDesc := mkKDesc {
@@ -40,18 +48,24 @@ Record St := mkSt {
   st_cond : nat; st_model : nat;        (* current versions: conditions, live model content *)
   st_matmodel : nat;                    (* model content of the current Krige._krige_mat *)
   st_mtn : nat;
-  st_next : nat;                        (* next unused version number *)
-  st_seed : nat                         (* seed of the generator *)
+  st_next : nat;                        (* next unused version number / object identity *)
+  st_seed : nat;                        (* seed of the generator *)
+  st_kvid : nat;                        (* identity of the array object stored as Krige.krige_var *)
+  st_ref : option (nat * bool * Pos)    (* CondSRF._krige_ref["raw_krige"]: (krige_var object, mesh type, pos) *)
 }.
 
 Inductive CondKind := NewVals | NewPos | Refresh.
 Inductive Op :=
-| Call (p : option (Pos * bool)) (sd : option nat)   (* csrf(pos, seed, mesh_type) *)
+| Call (p : option (Pos * bool)) (sd : option nat) (srk : bool)
+                                     (* csrf(pos, seed, mesh_type, store=[True, True, srk]) *)
 | SetPos (p : Pos) (m : bool)                        (* csrf.set_pos(pos, mesh_type) *)
 | SetCond (k : CondKind)                             (* csrf.krige.set_condition(...) *)
 | ModelInplace                                       (* csrf.model.len_scale = ... (no refresh) *)
 | SetModel | SetMean | SetTrend | SetNorm            (* csrf.model = ..., csrf.mean = ..., ... *)
-| SetGen (sd : nat).                                 (* csrf.set_generator("RandMeth", seed=sd) *)
+| SetGen (sd : nat)                                  (* csrf.set_generator("RandMeth", seed=sd) *)
+| MutatePos (q : Pos)       (* the caller edits IN PLACE the array last passed as pos; it now holds q *)
+| KrigeCall (p : option (Pos * bool))                (* csrf.krige(pos, mesh_type) called directly *)
+| AssignPos (q : Pos).                               (* csrf.pos = q (property setter, no set_pos) *)
 
 Record Out := mkOut {
   o_reuse : bool;                       (* which branch of CondSRF.__call__ was taken *)
@@ -67,91 +81,134 @@ Definition add_name (n : nat) (l : list nat) : list nat := if has n l then l els
 Definition cur_pos (s : St) : Pos := match st_pos s with Some q => q | None => pos0 end.
 Definition cur_desc (s : St) : KDesc :=
   mkKDesc (cur_pos s) (st_mesh s) (st_cond s) (st_matmodel s) (st_model s) (st_mtn s).
+Definition desc0 : KDesc := mkKDesc pos0 false 0 0 0 0.
 
 (* the freshly built object: Krige(model, cond, mean, normalizer, trend) from the current settings,
    CondSRF(krige, seed=current seed); nothing stored, no position *)
-Definition init (sd : nat) : St :=
-  mkSt None false [] [] (mkKDesc pos0 false 0 0 0 0) (mkKDesc pos0 false 0 0 0 0) 0 0 0 0 1 sd.
+Definition init (sd : nat) : St := mkSt None false [] [] desc0 desc0 0 0 0 0 1 sd 0 None.
 Definition fresh_of (s : St) : St :=
-  mkSt None false [] [] (mkKDesc pos0 false 0 0 0 0) (mkKDesc pos0 false 0 0 0 0)
-       (st_cond s) (st_model s) (st_model s) (st_mtn s) (st_next s) (st_seed s).
+  mkSt None false [] [] desc0 desc0 (st_cond s) (st_model s) (st_model s) (st_mtn s) (st_next s) (st_seed s) 0 None.
 
 (* Field.set_pos as overridden by CondSRF.set_pos: new pos and mesh type are stored; all stored fields of
    CondSRF and of Krige are deleted when the mesh type changed or not _pos_equal(old, new) *)
+Definition pos_changed (s : St) (p : Pos) (m : bool) : bool :=
+  negb (Bool.eqb (st_mesh s) m) || negb (match st_pos s with Some q => pos_close q p | None => false end).
 Definition do_set_pos (s : St) (p : Pos) (m : bool) : St * bool :=
-  let del := negb (Bool.eqb (st_mesh s) m)
-             || negb (match st_pos s with Some q => pos_close q p | None => false end) in
+  let del := pos_changed s p m in
   (mkSt (Some p) m (if del then [] else st_cnames s) (if del then [] else st_knames s)
-        (st_rk s) (st_kv s) (st_cond s) (st_model s) (st_matmodel s) (st_mtn s) (st_next s) (st_seed s), del).
+        (st_rk s) (st_kv s) (st_cond s) (st_model s) (st_matmodel s) (st_mtn s) (st_next s) (st_seed s)
+        (st_kvid s) (st_ref s), del).
+(* Field.set_pos on the Krige object itself (direct krige call): only Krige's fields are deleted *)
+Definition krige_set_pos (s : St) (p : Pos) (m : bool) : St :=
+  mkSt (Some p) m (st_cnames s) (if pos_changed s p m then [] else st_knames s)
+       (st_rk s) (st_kv s) (st_cond s) (st_model s) (st_matmodel s) (st_mtn s) (st_next s) (st_seed s)
+       (st_kvid s) (st_ref s).
 
 Definition with_seed (s : St) (sd : nat) : St :=
   mkSt (st_pos s) (st_mesh s) (st_cnames s) (st_knames s) (st_rk s) (st_kv s) (st_cond s) (st_model s)
-       (st_matmodel s) (st_mtn s) (st_next s) sd.
+       (st_matmodel s) (st_mtn s) (st_next s) sd (st_kvid s) (st_ref s).
+Definition with_pos (s : St) (q : Pos) : St :=
+  mkSt (Some q) (st_mesh s) (st_cnames s) (st_knames s) (st_rk s) (st_kv s) (st_cond s) (st_model s)
+       (st_matmodel s) (st_mtn s) (st_next s) (st_seed s) (st_kvid s) (st_ref s).
 
-(* CondSRF.__call__ with default store / krige_store *)
-Definition do_call (s : St) (p : option (Pos * bool)) (sd : option nat) : St * Res :=
+(* bf42345: the stored krige_var is the object remembered with raw_krige, same mesh type, _pos_equal positions *)
+Definition token_ok (s : St) : bool :=
+  match st_ref s with
+  | Some (id, m, rp) => (st_kvid s =? id) && Bool.eqb (st_mesh s) m && pos_close (cur_pos s) rp
+  | None => false
+  end.
+
+(* the part of CondSRF.__call__ after pre_pos (krige_store default, store = [True, True, srk]) *)
+Definition finish_call (fx : Fix) (s2 : St) (del srk : bool) : St * Res :=
+  let reuse := negb del && has 2 (st_cnames s2) && has 1 (st_knames s2)
+               && (if f_token fx then token_ok s2 else true) in
+  let cur := cur_desc s2 in
+  let k := if reuse then st_rk s2 else cur in
+  let v := if reuse then st_kv s2 else cur in
+  (* the krige call stores krige_var; then krige.post_field(..., "field") if not reuse or missing *)
+  let kn := add_name 0 (if reuse then st_knames s2 else add_name 1 (st_knames s2)) in
+  (* raw_krige (only if not reuse and wanted), raw_field, field *)
+  let cn := add_name 0 (add_name 1 (if reuse || negb srk then st_cnames s2 else add_name 2 (st_cnames s2))) in
+  (mkSt (st_pos s2) (st_mesh s2) cn kn
+        (if reuse || negb srk then st_rk s2 else cur) v
+        (st_cond s2) (st_model s2) (st_matmodel s2) (st_mtn s2)
+        (if reuse then st_next s2 else S (st_next s2)) (st_seed s2)
+        (if reuse then st_kvid s2 else st_next s2)
+        (if reuse || negb srk then st_ref s2 else Some (st_next s2, st_mesh s2, cur_pos s2)),
+   RField (mkOut reuse k v (st_model s2) (st_seed s2) (st_mtn s2))).
+
+Definition do_call (fx : Fix) (s : St) (p : option (Pos * bool)) (sd : option nat) (srk : bool) : St * Res :=
   (* self.generator.update(self.model, seed) — happens before pre_pos may raise *)
   let s1 := match sd with Some x => with_seed s x | None => s end in
   (* self.pre_pos(pos, mesh_type, info=True) *)
+  match p with
+  | None => match st_pos s1 with
+            | None => (s1, RErr)                         (* ValueError: no position tuple present *)
+            | Some _ => finish_call fx s1 false srk
+            end
+  | Some (q, m) => let '(s2, del) := do_set_pos s1 q m in finish_call fx s2 del srk
+  end.
+
+(* Krige.__call__ called directly (default store): field, then krige_var are stored in Krige *)
+Definition do_krige_call (s : St) (p : option (Pos * bool)) : St * Res :=
   let pre := match p with
-             | None => match st_pos s1 with None => None | Some _ => Some (s1, false) end
-             | Some (q, m) => Some (do_set_pos s1 q m)
+             | None => match st_pos s with None => None | Some _ => Some s end
+             | Some (q, m) => Some (krige_set_pos s q m)
              end in
   match pre with
-  | None => (s1, RErr)                                   (* ValueError: no position tuple present *)
-  | Some (s2, del) =>
-    let reuse := negb del && has 2 (st_cnames s2) && has 1 (st_knames s2) in
-    let cur := cur_desc s2 in
-    let k := if reuse then st_rk s2 else cur in
-    let v := if reuse then st_kv s2 else cur in
-    (* the krige call stores krige_var; then krige.post_field(..., "field") if not reuse or missing *)
-    let kn := add_name 0 (if reuse then st_knames s2 else add_name 1 (st_knames s2)) in
-    (* raw_krige (only if not reuse), raw_field, field *)
-    let cn := add_name 0 (add_name 1 (if reuse then st_cnames s2 else add_name 2 (st_cnames s2))) in
-    (mkSt (st_pos s2) (st_mesh s2) cn kn k v (st_cond s2) (st_model s2) (st_matmodel s2) (st_mtn s2)
-          (st_next s2) (st_seed s2),
-     RField (mkOut reuse k v (st_model s2) (st_seed s2) (st_mtn s2)))
+  | None => (s, RErr)
+  | Some s2 =>
+    (mkSt (st_pos s2) (st_mesh s2) (st_cnames s2) (add_name 1 (add_name 0 (st_knames s2)))
+          (st_rk s2) (cur_desc s2) (st_cond s2) (st_model s2) (st_matmodel s2) (st_mtn s2)
+          (S (st_next s2)) (st_seed s2) (st_next s2) (st_ref s2), RNone)
   end.
 
 (* Krige.set_condition: new data (or none), the kriging matrix is rebuilt from the live model;
-   repaired tree: the stored fields of Krige are dropped *)
-Definition do_set_cond (fx : bool) (s : St) (k : CondKind) : St :=
+   2a36b2f: the stored fields of Krige are dropped *)
+Definition do_set_cond (fx : Fix) (s : St) (k : CondKind) : St :=
   let c := match k with Refresh => st_cond s | _ => st_next s end in
-  mkSt (st_pos s) (st_mesh s) (st_cnames s) (if fx then [] else st_knames s) (st_rk s) (st_kv s)
-       c (st_model s) (st_model s) (st_mtn s) (S (st_next s)) (st_seed s).
+  mkSt (st_pos s) (st_mesh s) (st_cnames s) (if f_inval fx then [] else st_knames s) (st_rk s) (st_kv s)
+       c (st_model s) (st_model s) (st_mtn s) (S (st_next s)) (st_seed s) (st_kvid s) (st_ref s).
 
 Definition do_model_inplace (s : St) : St :=
   mkSt (st_pos s) (st_mesh s) (st_cnames s) (st_knames s) (st_rk s) (st_kv s)
-       (st_cond s) (st_next s) (st_matmodel s) (st_mtn s) (S (st_next s)) (st_seed s).
+       (st_cond s) (st_next s) (st_matmodel s) (st_mtn s) (S (st_next s)) (st_seed s) (st_kvid s) (st_ref s).
 
-(* Krige.model setter: pinned = Field.model setter only; repaired = followed by set_condition() *)
-Definition do_set_model (fx : bool) (s : St) : St :=
-  let s1 := do_model_inplace s in if fx then do_set_cond fx s1 Refresh else s1.
+(* Krige.model setter: pinned = Field.model setter only; 2a36b2f = followed by set_condition() *)
+Definition do_set_model (fx : Fix) (s : St) : St :=
+  let s1 := do_model_inplace s in if f_inval fx then do_set_cond fx s1 Refresh else s1.
 
-(* Krige.mean / trend / normalizer setters: repaired tree drops the stored fields of Krige *)
-Definition do_set_mtn (fx : bool) (s : St) : St :=
-  mkSt (st_pos s) (st_mesh s) (st_cnames s) (if fx then [] else st_knames s) (st_rk s) (st_kv s)
-       (st_cond s) (st_model s) (st_matmodel s) (st_next s) (S (st_next s)) (st_seed s).
+(* Krige.mean / trend / normalizer setters: 2a36b2f drops the stored fields of Krige *)
+Definition do_set_mtn (fx : Fix) (s : St) : St :=
+  mkSt (st_pos s) (st_mesh s) (st_cnames s) (if f_inval fx then [] else st_knames s) (st_rk s) (st_kv s)
+       (st_cond s) (st_model s) (st_matmodel s) (st_next s) (S (st_next s)) (st_seed s) (st_kvid s) (st_ref s).
 
-Definition step (fx : bool) (s : St) (op : Op) : St * Res :=
+(* the caller edits the passed array in place: before 002fae9 the stored positions are a view of it *)
+Definition do_mutate_pos (fx : Fix) (s : St) (q : Pos) : St :=
+  if f_copy fx then s else match st_pos s with Some _ => with_pos s q | None => s end.
+
+Definition step (fx : Fix) (s : St) (op : Op) : St * Res :=
   match op with
-  | Call p sd => do_call s p sd
+  | Call p sd srk => do_call fx s p sd srk
   | SetPos p m => (fst (do_set_pos s p m), RNone)
   | SetCond k => (do_set_cond fx s k, RNone)
   | ModelInplace => (do_model_inplace s, RNone)
   | SetModel => (do_set_model fx s, RNone)
   | SetMean | SetTrend | SetNorm => (do_set_mtn fx s, RNone)
   | SetGen sd => (with_seed s sd, RNone)
+  | MutatePos q => (do_mutate_pos fx s q, RNone)
+  | KrigeCall p => do_krige_call s p
+  | AssignPos q => (with_pos s q, RNone)
   end.
 
-Definition run (fx : bool) (ops : list Op) (s : St) : St := fold_left (fun s op => fst (step fx s op)) ops s.
+Definition run (fx : Fix) (ops : list Op) (s : St) : St := fold_left (fun s op => fst (step fx s op)) ops s.
 
 (* the kriging setup is up to date: no in-place model change is waiting for the documented refresh *)
 Definition refreshed (s : St) : Prop := st_matmodel s = st_model s.
 
 (* what a freshly built object returns for the current settings, position and seed *)
 Definition fresh_result (s : St) : Res :=
-  snd (step true (fresh_of s) (Call (Some (cur_pos s, st_mesh s)) None)).
+  snd (step repaired (fresh_of s) (Call (Some (cur_pos s, st_mesh s)) None true)).
 
 (* two results describe the same field (the branch flag is not part of the field) *)
 Definition same_field (a b : Res) : Prop :=
@@ -161,18 +218,15 @@ Definition same_field (a b : Res) : Prop :=
   | _, _ => False
   end.
 
-(* a position passed by the caller is either the present one or not _pos_equal to it
-   (no change hidden inside the np.allclose window) *)
-Definition clean_op (s : St) (op : Op) : Prop :=
+(* no position of the history hides inside the np.allclose window of another one: all positions have jit 0,
+   so two positions are _pos_equal only if they are identical *)
+Definition op_pos (op : Op) : option Pos :=
   match op with
-  | Call (Some (q, _)) _ | SetPos q _ => forall c, st_pos s = Some c -> pos_close c q = true -> c = q
-  | _ => True
+  | Call (Some (q, _)) _ _ | SetPos q _ | MutatePos q | KrigeCall (Some (q, _)) | AssignPos q => Some q
+  | _ => None
   end.
-Fixpoint clean (fx : bool) (s : St) (ops : list Op) : Prop :=
-  match ops with
-  | [] => True
-  | op :: r => clean_op s op /\ clean fx (fst (step fx s op)) r
-  end.
+Definition clean_op (op : Op) : Prop := match op_pos op with Some q => p_jit q = 0 | None => True end.
+Definition clean (ops : list Op) : Prop := Forall clean_op ops.
 
 (* ------------------------------------------------------------------ executable trace (correspondence) *)
 Definition zb (b : bool) : Z := if b then 1%Z else 0%Z.
@@ -194,26 +248,30 @@ Definition enc_row (s : St) (r : Res) : list Z :=
   enc_res r ++ [enc_names (st_cnames s); enc_names (st_knames s);
                 match st_pos s with Some _ => 1%Z | None => 0%Z end] ++ enc_desc (cur_desc s) ++ [zn (st_seed s)].
 
+(* row = [code; haspos; base; jit; mesh; seed+1; nosave] *)
 Definition dec_op (r : list Z) : Op :=
   let g i := Z.to_nat (nth i r 0%Z) in
-  let ps := if (g 1 =? 0) then None else Some (mkPos (g 2) (g 3), negb (g 4 =? 0)) in
+  let q := mkPos (g 2) (g 3) in
+  let ps := if (g 1 =? 0) then None else Some (q, negb (g 4 =? 0)) in
   match g 0 with
-  | 0 => Call ps (if g 5 =? 0 then None else Some (g 5 - 1))
-  | 1 => SetPos (mkPos (g 2) (g 3)) (negb (g 4 =? 0))
+  | 0 => Call ps (if g 5 =? 0 then None else Some (g 5 - 1)) (g 6 =? 0)
+  | 1 => SetPos q (negb (g 4 =? 0))
   | 2 => SetCond NewVals | 3 => SetCond NewPos | 4 => SetCond Refresh
   | 5 => ModelInplace | 6 => SetModel | 7 => SetMean | 8 => SetTrend | 9 => SetNorm
-  | _ => SetGen (g 5 - 1)
+  | 10 => SetGen (g 5 - 1)
+  | 11 => MutatePos q
+  | 12 => KrigeCall ps
+  | _ => AssignPos q
   end.
 
-Fixpoint trace_from (fx : bool) (s : St) (ops : list Op) : list (list Z) :=
+Fixpoint trace_from (fx : Fix) (s : St) (ops : list Op) : list (list Z) :=
   match ops with
   | [] => []
   | op :: r => let '(s', res) := step fx s op in enc_row s' res :: trace_from fx s' r
   end.
-Definition trace (fx : bool) (sd0 : nat) (rows : list (list Z)) : list (list Z) :=
-  trace_from fx (init sd0) (map dec_op rows).
-(* the descriptor a freshly built object would use, after each operation (for the report) *)
-Definition fresh_row (s : St) : list Z := enc_res (fresh_result s).
+(* fixes: three flags (2a36b2f, 002fae9, bf42345) *)
+Definition trace (f1 f2 f3 : bool) (sd0 : nat) (rows : list (list Z)) : list (list Z) :=
+  trace_from (mkFix f1 f2 f3) (init sd0) (map dec_op rows).
 
 (* ------------------------------------------------------------------ Part 2: the conditioning formula *)
 Section Formula.
